@@ -19,6 +19,11 @@ for pid in sorted(PROPS):
         level_note=c['level_note'],
         technique=c.get('technique', 'contract-based deductive verification (Verus on mechanically extracted functions)'),
     ))
+allp = [json.loads(l)['id'] for l in open(os.path.join(ROOT, 'properties.jsonl')) if l.strip()]
+na = dict(NOT_APPLICABLE)
+for q in allp:
+    if q not in PROPS and q not in na:
+        na[q] = 'not claimed yet: the check for this property has not been built in /verif at this commit'
 m = dict(
     version=1,
     setup_cmd='./setup.sh',
@@ -27,7 +32,7 @@ m = dict(
     engines=[dict(name='contracts', path='/verif/check', serves_properties=sorted(PROPS),
                   kind_free_text='Verus (unbounded, per-function contracts on functions extracted from /repo on every run) + Kani/CBMC (complete loop-free harnesses and bounded stand-ins on the real crates)')],
     checks=checks,
-    not_applicable=[dict(property_id=k, reason=v) for k, v in sorted(NOT_APPLICABLE.items())],
+    not_applicable=[dict(property_id=k, reason=v) for k, v in sorted(na.items())],
     notes='exit 2 = undecided (lost anchor / tool limit / vacuity guard), never an alarm. known_findings.txt lists fixed defects and recorded findings.',
 )
 json.dump(m, open(os.path.join(ROOT, 'MANIFEST.json'), 'w'), indent=1)
